@@ -241,3 +241,111 @@ func VHSortedHist() {
 		vCover("history ends with >= 2 elements")
 	}
 }
+
+// VHSortedLong: a long structured history past any internal capacity boundary: NL strictly
+// increasing symbolic values are added (in ascending, descending or inside-out order), then
+// removed again in one of several orders, with the invariant and the returned positions
+// checked after every call. All comparisons are decided by the assumed order: one path per
+// choice of orders.
+func VHSortedLong() {
+	n := vParam("NL")
+	vals := make([]int, n)
+	for i := range vals {
+		vals[i] = vInt("s")
+		if i > 0 {
+			vAssume(vals[i-1] < vals[i])
+		}
+	}
+	perm := func(kind int) []int {
+		o := make([]int, 0, n)
+		switch kind {
+		case 0:
+			for i := 0; i < n; i++ {
+				o = append(o, i)
+			}
+		case 1:
+			for i := n - 1; i >= 0; i-- {
+				o = append(o, i)
+			}
+		case 2:
+			for lo, hi := 0, n-1; lo <= hi; lo, hi = lo+1, hi-1 {
+				o = append(o, lo)
+				if hi != lo {
+					o = append(o, hi)
+				}
+			}
+		case 3: // stride 7 (coprime to typical sizes): a scrambled order
+			for k := 0; len(o) < n; k++ {
+				idx := (k * 7) % n
+				dup := false
+				for _, x := range o {
+					if x == idx {
+						dup = true
+					}
+				}
+				if dup {
+					idx = 0
+					for {
+						dup = false
+						for _, x := range o {
+							if x == idx {
+								dup = true
+							}
+						}
+						if !dup {
+							break
+						}
+						idx++
+					}
+				}
+				o = append(o, idx)
+			}
+		}
+		return o
+	}
+	s := NewSortedOrdered[int]()
+	present := make([]bool, n)
+	check := func(what string) {
+		k := 0
+		for i := 0; i < n; i++ {
+			if present[i] {
+				vAssert(k < s.Len() && s.Get(k) == vals[i], what+": contents are exactly the values put in and not taken out, in order")
+				k++
+			}
+		}
+		vAssert(s.Len() == k, what+": Len is the number of values inside")
+	}
+	for _, i := range perm(vChoose("addorder", 4)) {
+		pos := s.Add(vals[i])
+		present[i] = true
+		rank := 0
+		for j := 0; j < i; j++ {
+			if present[j] {
+				rank++
+			}
+		}
+		vAssert(pos == rank, "long history: Add returns the position at which the value now sits")
+	}
+	check("after the additions")
+	useAt := vChoose("removeat", 2) == 1
+	for step, i := range perm(vChoose("removeorder", 4)) {
+		rank := 0
+		for j := 0; j < i; j++ {
+			if present[j] {
+				rank++
+			}
+		}
+		if useAt {
+			s.RemoveAt(rank)
+		} else {
+			vAssert(s.Remove(vals[i]) == rank, "long history: Remove returns the former position of the value")
+		}
+		present[i] = false
+		if step%8 == 7 || step >= n-3 {
+			check("during the removals")
+		}
+		vAssert(!s.Contains(vals[i]), "long history: a removed value is no longer contained")
+	}
+	vAssert(s.Len() == 0, "long history: everything removed")
+	vCover("sorted long done")
+}
